@@ -8,7 +8,12 @@ writes and registrations go to the first member; deletion removes the name from
 every member that has it).  A linked context is the linked context's chain
 followed by the given parent's chain.  `$`, `$1` and the empty name are one
 variable.  collect_functions = the overloads of each layer nearest-first,
-stopping after a layer that registered the name exclusively.
+stopping after a layer that registered the name exclusively.  A caller's filter
+(the engine collects only functions for `f()` and only methods for `x.f()`)
+removes overloads from the result, never layers from the walk: exclusivity is a
+fact of the layer's registration history, whether or not the filter keeps any of
+the layer's overloads.  A registration that the context rejects registers
+nothing and marks nothing.
 
 A merged layer is an ordered *set* of stores (a store reachable twice, e.g.
 through a diamond of multi-contexts, counts once).  Imports nothing from yaql.
@@ -21,9 +26,14 @@ def norm(n):
     return '$1' if n == '$' else n
 
 
+class Rejected(Exception):
+    """The model's verdict on an operation the context must refuse without changing anything."""
+
+
 class Forest(object):
     def __init__(self):
         self.nodes = []
+        self._layers = {}      # the chain of a node depends only on nodes created before it: computed once
 
     def add(self, kind='plain', parent=None, members=None, linked=None):
         self.nodes.append(dict(kind=kind, parent=parent, members=members, linked=linked,
@@ -31,6 +41,11 @@ class Forest(object):
         return len(self.nodes) - 1
 
     def layers(self, i):
+        if i not in self._layers:
+            self._layers[i] = self._chain(i)
+        return self._layers[i]
+
+    def _chain(self, i):
         n = self.nodes[i]
         if n['kind'] == 'plain':
             return [[i]] + (self.layers(n['parent']) if n['parent'] is not None else [])
@@ -67,7 +82,10 @@ class Forest(object):
 
     def contains(self, i, name):
         name = norm(name)
-        return any(name in self.nodes[s]['data'] for s in self.layers(i)[0])
+        for s in self.layers(i)[0]:
+            if name in self.nodes[s]['data']:
+                return True
+        return False
 
     def keys(self, i):
         out = []
@@ -107,17 +125,24 @@ class Forest(object):
                 n['funcs'].remove(tag)
             n['excl'] = False
 
-    def get_functions(self, i):
-        l0 = self.layers(i)[0]
-        return (sorted(set(t for s in l0 for t in self.nodes[s]['funcs'])),
-                any(self.nodes[s]['excl'] for s in l0))
+    def register_rejected(self, i, excl):
+        """A registration the context refuses (an invalid method spec): nothing is registered, nothing is marked."""
+        raise Rejected()
 
-    def collect(self, i):
+    def _overloads(self, layer, keep):
+        return sorted(set(t for s in layer for t in self.nodes[s]['funcs'] if keep is None or keep(t)))
+
+    def get_functions(self, i, keep=None):
+        """keep: the caller's filter over overloads (None = all of them)."""
+        l0 = self.layers(i)[0]
+        return (self._overloads(l0, keep), any(self.nodes[s]['excl'] for s in l0))
+
+    def collect(self, i, keep=None):
         out = []
         for layer in self.layers(i):
-            fs = sorted(set(t for s in layer for t in self.nodes[s]['funcs']))
+            fs = self._overloads(layer, keep)
             if fs:
                 out.append(fs)
-            if any(self.nodes[s]['excl'] for s in layer):
+            if any(self.nodes[s]['excl'] for s in layer):      # whatever the filter kept
                 break
         return out
